@@ -17,7 +17,7 @@
 (* Serves C08 C09 C10 C13 (C07 and C19 are the numeric modules BoundFn and *)
 (* DriftFn; C01/C12 compose this block with World and ClientFn in E2E).    *)
 (***************************************************************************)
-EXTENDS Integers, Sequences, FiniteSets, TLC
+EXTENDS Integers, Sequences, FiniteSets, TLC, ClassFn
 
 CONSTANTS
   GRACE,          \* CHRONY_RESTART_GRACE_PERIOD, 5 s
@@ -60,17 +60,10 @@ NoRec == [asOf |-> 0, voidAfter |-> 0, bound |-> 0, drift |-> 0, status |-> "U"]
 NoOut == [kind |-> "none", cls |-> "U"]
 
 \* ------------------------------------------------------------------ classification (C10)
-\* leap status -> class (lib.rs From<u16>), then the staleness override (shm_writer.rs)
-LeapClass(leap) == IF leap \in 0..2 THEN "S" ELSE IF leap = 3 THEN "F" ELSE "U"
-\* refPos: "future" (reference time after now) | "fresh" (age <= 8 * interval) | "stale" (age > 8 * interval)
-Classify(leap, refPos) ==
-  IF refPos = "future" THEN "U"
-  ELSE IF LeapClass(leap) = "S" /\ refPos = "stale" THEN "F"
-  ELSE LeapClass(leap)
+\* LeapClass / Classify / RefPos: module ClassFn
 
 \* representative leap codes: 0,1,2 synchronised; 3 unsynchronised; 4 stands for every other value
 Leaps == {0, 1, 2, 3, 4}
-RefPos == {"fresh", "stale", "future"}
 AllReports == [kind : {"reply"}, leap : Leaps, refPos : RefPos, b : Bounds, refMatch : BOOLEAN]
 
 \* ------------------------------------------------------------------ world
